@@ -46,6 +46,8 @@ FIXED = [
  ('C03', 'fix: validate_scalar accepts instances of subclasses', 'Vector([IntEnum.A]) refused to have its own element written back (C03:*:write-back-rejected)'),
  ('C02', 'fix: row views of tables whose', "iterating Table({'a': [], 'b': []}) raised AttributeError (C02:Table.iter:raises-on-zero-row)"),
  ('C01', 'fix: >> rejects a column', 'v >> [7, 8] (unequal length) returned a vector holding v itself: later writes through v showed through it (C01:leak:Vector.rshift~nested-vector, C03:Vector.rshift-*:truthful)'),
+ ('C15', 'fix: concatenating nothing no longer shares', 'v << [] / [] << v / v << Vector([]) returned a result holding the operand\'s own tuple: the next write to either raised AliasError (C15:vector.Vector.__lshift__:fresh-storage)'),
+ ('C17', 'fix: repr dot row of wide tables', 'dot row of a >10-column table showed the plain accessor for a duplicate whose first occurrence was elided (C17:repr-dot-row:mismatch:wide:first-occurrence-elided)'),
 ]
 KNOWN = [
  {'property': 'C16', 'status': 'known', 'key': 'C16:fingerprint:mod-p-residue',
